@@ -239,6 +239,11 @@ def gen_world(rng, tier):
                             "helpers": [{"name": "y0", "fn": r.choice(["mode", "count_unique", "max", "sum"]),
                                          "col": "x", "kwargs": {}, "id": hid[0], "dtype": "object"}]})
             c = gen_call(r, cfg, hid, pool)
+            if ops and ops[-1].get("dtype") == "object" and ops[-1]["ev"] == "call" and c["helpers"]:
+                # the call right after a failed aggregation uses the same helper kind
+                fn = ops[-1]["helpers"][0]["fn"]
+                if fn in (HELPERS_DT if c["dtype"].startswith("datetime") else HELPERS_ALL):
+                    c["helpers"][0] = dict(c["helpers"][0], fn=fn, kwargs={}, col="x", dtype=c["dtype"])
             ops.append(c)
             if r.random() < 0.4 and "z" not in c["cols"]:
                 if c["na_mode"] != "none" and r.random() < 0.6:
